@@ -28,6 +28,14 @@ def check(k, seed):
     df, desc = scene(k, seed)
     P = nested_prms(k, seed)
     fails = []
+    # "arbitrary prior global contents": every route starts from a global that holds other values for keys the assignment names --
+    # in every fourth scene a stale non-null MSA that the assignment sets back to None (null is a documented, legal value)
+    stale = {}
+    if k % 4 == 0:
+        stale = {'MSA': 1500}
+        P['MSA'] = None
+    for key_, val_ in stale.items():
+        dynamic.AMPYCLOUD_PRMS[key_] = val_
     try:
         with warnings.catch_warnings(record=True) as wlist:
             warnings.simplefilter('always')
@@ -46,12 +54,16 @@ def check(k, seed):
     if keys(a.prms) != keys(defaults):
         fails.append('per-call dictionary changed the key structure of the chunk parameters')
     exp = copy.deepcopy(defaults)
+    exp.update(stale)
     with warnings.catch_warnings():
         warnings.simplefilter('ignore')
         exp = adjust_nested_dict(exp, copy.deepcopy(P))
     if a.prms != exp:
         fails.append('chunk.prms != defaults overridden by exactly the named keys')
     # route B: edit the global dictionary
+    ampycloud.reset_prms()
+    for key_, val_ in stale.items():
+        dynamic.AMPYCLOUD_PRMS[key_] = val_
     _apply_global(P, dynamic.AMPYCLOUD_PRMS)
     b = run_quiet(df)
     if digest_chunk(b) != dig_a:
@@ -61,6 +73,8 @@ def check(k, seed):
     known = copy.deepcopy(P)
     known.pop('NOT_A_PARAMETER', None)
     known.get('SLICING_PRMS', {}).pop('bogus', None)
+    for key_, val_ in stale.items():
+        dynamic.AMPYCLOUD_PRMS[key_] = val_
     with tempfile.TemporaryDirectory() as td:
         pth = os.path.join(td, 'p.yml')
         y = YAML(typ='safe')
